@@ -99,6 +99,7 @@ CALLS = {
     # ---- strings: QString operator< / operator> (A-STR-ORDER), appends
     'op<:qstr:qstr': ('fn', 'qstr_lt'),
     'op>:qstr:qstr': ('fn', 'qstr_gt'),
+    'qstr::compare/1': ('fn', 'qstr_compare'),
     'op+:qstr:quint16': ('fnret', 'QSB_str_chr', 'QSB'),
     'op+:qstr:qstr': ('fnret', 'QSB_str_str', 'QSB'),
     'op+:qstr:char16_t[2]': ('fnret', 'QSB_str_str', 'QSB'),
